@@ -34,7 +34,11 @@
        not a remote frame, standard/extended as the message, the message's length) decides the
        [f_unm_ok] of RunModel.rframe; a remote / extended / wrong-length frame with a known ID is an
        ordinary frame for RunMessageReceiver (lock, hook lookup, receive time, unmarshal - which
-       fails -, unlock, return the error). *)
+       fails -, unlock, return the error).
+
+    4. Which messages get a ticker: the [cyclic] bit of a transmitter role (Lts.t_cyclic, the guard
+       of apply_ticker) is COMPUTED here from the descriptor's facts, run.go:140-142:
+       isCyclic = (SendType = Cyclic), hasCycleTime = (CycleTime > 0). *)
 From Coq Require Import Arith Bool List ZArith.
 From CanVerif Require Import Runner.Lts Runner.RunModel.
 Import ListNotations.
@@ -219,3 +223,17 @@ Definition shape_accepts (msg_ext : bool) (msg_len : nat) (f : fshape) : bool :=
 
 Definition rframe_of_shape (id : nat) (known : bool) (msg_ext : bool) (msg_len : nat) (f : fshape) (hook_ok : bool) : rframe :=
   mkRframe id known (shape_accepts msg_ext msg_len f) hook_ok.
+
+(* ---------------------------------------------------------------- 4. ticker eligibility *)
+
+(** descriptor.SendType: 0 none, 1 cyclic, 2 event *)
+Definition send_type_cyclic : nat := 1.
+
+Definition ticker_eligible (send_type : nat) (cycle : Z) : bool :=
+  Nat.eqb send_type send_type_cyclic && Z.ltb 0 cycle.
+
+Definition role_of_descriptor (send_type : nat) (cycle : Z) (enabled_at_start : bool) : role :=
+  if enabled_at_start then RoleTxOn (ticker_eligible send_type cycle) else RoleTx (ticker_eligible send_type cycle).
+
+Definition role_cyclic (r : role) : option bool :=
+  match r with RoleTx c | RoleTxOn c => Some c | _ => None end.
